@@ -27,13 +27,18 @@ import (
 	"verif/harness/xt"
 )
 
-const c15Rule = "rapid generates plans: N in {2..64} clients, each a sequence of 3..12 operations drawn from {sso, sso+login+callback (POST or Redirect delivery), logout, attribute query, metadata, certificate} for its own session (own SP, user, Host header under a host-derived issuer, RelayState, request IDs - every such string carries the token zz<i>zz), with generated yield points; all clients start behind a barrier and run as goroutines against one provider in a -race build, under GOMAXPROCS drawn from {2, 4, 16}. Oracle: (1) the race detector stays silent (a report fails the binary and is turned into a violation by the driver); (2) every reply is checked against its own session with the sequential oracles of C03 / C13 / C12 / C11 (request ID, consumer URL, audience, issuer host, user attributes, RelayState) and every decoded layer of it is scanned for tokens of any other session; (3) all response, assertion, logout-response and metadata IDs collected from all goroutines are pairwise distinct NCNames. Non-trivial: at least two requests of different sessions overlapped in time (entry/exit stamps). Distinct by plan shape. Interleavings are sampled, not enumerated."
+const c15Rule = "rapid generates plans: N in {2..64} clients, each a sequence of 3..12 operations drawn from {sso, sso+login+callback (POST or Redirect delivery), logout, attribute query, metadata, certificate} for its own session (own SP, user, Host header under a host-derived issuer, RelayState, request IDs - every such string carries the token zz<i>zz), with generated yield points; every second plan is preceded by a storm (4..40 further sessions doing callbacks on completed requests and one other request each, concurrently, while one or two storage operations fail on every call - signing key that does not match its certificate, key errors, user lookup failures, ...), after which the storage is repaired; all clients start behind a barrier and run as goroutines against one provider in a -race build, under GOMAXPROCS drawn from {2, 4, 16}. Oracle: (1) the race detector stays silent (a report fails the binary and is turned into a violation by the driver); (2) every reply is checked against its own session with the sequential oracles of C03 / C13 / C12 / C11 (request ID, consumer URL, audience, issuer host, user attributes, RelayState) and every decoded layer of it is scanned for tokens of any other session; (3) all response, assertion, logout-response and metadata IDs collected from all goroutines are pairwise distinct NCNames; (4) the provider keeps serving: if no request at all has been answered for 15 s and every goroutine inside zitadel/saml is parked on a channel or lock in two stack dumps 3 s apart, the requests are blocked for good (a merely slow run is inconclusive, never a violation). Non-trivial: at least two requests of different sessions overlapped in time (entry/exit stamps). Distinct by plan shape. Interleavings are sampled, not enumerated."
 
 type C15Case struct {
 	N      int        `json:"clients"`
 	Procs  int        `json:"gomaxprocs"`
 	Ops    [][]string `json:"ops"` // per client
 	Yields []int      `json:"yields"`
+	// Storm, when set, precedes the plan: StormN further sessions use the provider at the same time while the storage
+	// misbehaves in the stated way; then the storage is repaired. Whatever those requests were answered, the sessions of
+	// the plan must afterwards be served as if nothing had happened.
+	StormN      int           `json:"storm_clients,omitempty"`
+	StormFaults []world.Fault `json:"storm_faults,omitempty"`
 }
 
 var c15Ops = []string{"sso", "flow-post", "flow-post", "flow-redirect", "logout", "attrquery", "metadata", "certificate"}
@@ -49,7 +54,23 @@ func genC15Case(t *rapid.T) C15Case {
 		c.Ops = append(c.Ops, ops)
 		c.Yields = append(c.Yields, rapid.IntRange(0, 3).Draw(t, "yield"))
 	}
+	if rapid.Bool().Draw(t, "storm") {
+		c.StormN = rapid.SampledFrom([]int{4, 17, 24, 40}).Draw(t, "stormclients")
+		c.StormFaults = []world.Fault{rapid.SampledFrom(c15StormFaults).Draw(t, "stormfault")}
+		if rapid.IntRange(0, 2).Draw(t, "stormfault2") == 0 {
+			c.StormFaults = append(c.StormFaults, rapid.SampledFrom(c15StormFaults).Draw(t, "stormfaultb"))
+		}
+	}
 	return c
+}
+
+// every call of the operation fails in the stated way while the storm lasts
+var c15StormFaults = []world.Fault{
+	{Op: "GetResponseSigningKey", Kind: "mismatch"}, {Op: "GetResponseSigningKey", Kind: "mismatch"}, {Op: "GetResponseSigningKey", Kind: "mismatch"},
+	{Op: "GetResponseSigningKey", Kind: "error"}, {Op: "GetResponseSigningKey", Kind: "nokey"}, {Op: "GetResponseSigningKey", Kind: "garbagecert"},
+	{Op: "GetMetadataSigningKey", Kind: "mismatch"}, {Op: "GetMetadataSigningKey", Kind: "error"},
+	{Op: "SetUserinfoWithUserID", Kind: "error"}, {Op: "SetUserinfoWithUserID", Kind: "partial"}, {Op: "SetUserinfoWithLoginName", Kind: "error"},
+	{Op: "GetEntityIDByAppID", Kind: "error"}, {Op: "AuthRequestByID", Kind: "error"}, {Op: "GetEntityByID", Kind: "error"}, {Op: "CreateAuthRequest", Kind: "error"},
 }
 
 func c15Tok(i int) string { return fmt.Sprintf("zz%dzz", i) }
@@ -83,6 +104,7 @@ type c15Collect struct {
 	requests int
 	overlaps int64
 	inflight int64
+	finished int64 // requests answered so far (progress signal of the watchdog)
 	byOp     map[string]int
 }
 
@@ -108,14 +130,9 @@ func (cc *c15Collect) id(id, where string) {
 	}
 }
 
-// c15Client runs the operations of client i.
-func c15Client(w *world.World, spec world.Spec, i int, ops []string, yield int, cc *c15Collect) {
-	tk := c15Tok(i)
-	host := "tenant" + tk + ".idp.example"
-	sp := spec.SPs[i]
-	user := spec.Users[i]
-	entity := spec.IdP.EntityID(host)
-	do := func(op string, hr obs.HTTPReq) (obs.Reply, time.Time, time.Time) {
+// c15Do returns the function that sends one request of session i and applies the isolation oracle to the reply.
+func c15Do(w *world.World, cc *c15Collect, i int, host string, yield int) func(op string, hr obs.HTTPReq) (obs.Reply, time.Time, time.Time) {
+	return func(op string, hr obs.HTTPReq) (obs.Reply, time.Time, time.Time) {
 		hr.Host = host
 		for k := 0; k < yield; k++ {
 			runtime.Gosched()
@@ -127,6 +144,7 @@ func c15Client(w *world.World, spec world.Spec, i int, ops []string, yield int, 
 		rep := obs.Do(w.Handler, hr)
 		t1 := time.Now()
 		atomic.AddInt64(&cc.inflight, -1)
+		atomic.AddInt64(&cc.finished, 1)
 		cc.mu.Lock()
 		cc.requests++
 		cc.byOp[op]++
@@ -146,6 +164,16 @@ func c15Client(w *world.World, spec world.Spec, i int, ops []string, yield int, 
 		}
 		return rep, t0, t1
 	}
+}
+
+// c15Client runs the operations of client i.
+func c15Client(w *world.World, spec world.Spec, i int, ops []string, yield int, cc *c15Collect) {
+	tk := c15Tok(i)
+	host := "tenant" + tk + ".idp.example"
+	sp := spec.SPs[i]
+	user := spec.Users[i]
+	entity := spec.IdP.EntityID(host)
+	do := c15Do(w, cc, i, host, yield)
 	wr := func(n *xt.Node) []byte { return xt.Write(n, plainStyle.W) }
 	for k, op := range ops {
 		reqID := fmt.Sprintf("_req%s-%d", tk, k)
@@ -265,12 +293,153 @@ func c15Client(w *world.World, spec world.Spec, i int, ops []string, yield int, 
 	}
 }
 
+// c15Storm is one session of the storm: a callback on its own completed request, then one request to another endpoint,
+// all while the storage misbehaves. The replies are only held to the isolation oracle (what a failing storage must be
+// answered with is C10's subject).
+func c15Storm(w *world.World, spec world.Spec, i int, cc *c15Collect) {
+	tk := c15Tok(i)
+	host := "tenant" + tk + ".idp.example"
+	sp, user := spec.SPs[i], spec.Users[i]
+	do := c15Do(w, cc, i, host, i%3)
+	wr := func(n *xt.Node) []byte { return xt.Write(n, plainStyle.W) }
+	do("storm/callback", callbackReq(spec.IdP, "storm-"+tk))
+	switch i % 5 {
+	case 0:
+		q := spsim.NewAttrQuery("_storm"+tk, sp.EntityID, user.LoginName)
+		hr, _, _ := spsim.Encode(spec.IdP.Route("attribute"), wr(spsim.Envelope(q.QueryTree(plainStyle), "soap")), spsim.Transport{Binding: "soap"}, nil)
+		do("storm/attrquery", hr)
+	case 1:
+		do("storm/metadata", obs.HTTPReq{Method: "GET", Path: spec.IdP.Route("metadata")})
+	case 2:
+		a := spsim.NewAuthnReq("_storm"+tk, sp.EntityID)
+		hr, _, _ := spsim.Encode(spec.IdP.Route("sso"), wr(a.Tree(plainStyle)), spsim.Transport{Binding: "post", Plus: true, Encoding: A, RelayState: "rs-" + tk}, nil)
+		do("storm/sso", hr)
+	case 3:
+		l := spsim.NewLogoutReq("_storm"+tk, sp.EntityID, user.Username)
+		l.IssueInstant = spsim.Instant(time.Now().Add(-10*time.Second), 0)
+		hr, _, _ := spsim.Encode(spec.IdP.Route("slo"), wr(l.Tree(plainStyle)), spsim.Transport{Binding: "post", Plus: true, Encoding: A, RelayState: "rs-" + tk}, nil)
+		do("storm/logout", hr)
+	case 4:
+		do("storm/callback-again", callbackReq(spec.IdP, "storm-"+tk))
+	}
+}
+
+var reGoroutine = regexp.MustCompile(`(?m)^goroutine (\d+) \[([^\],]+)`)
+
+// c15Blocked inspects a dump of all goroutine stacks: it returns the goroutines that are inside zitadel/saml, and whether
+// every one of them is parked on a synchronisation primitive (channel operation, lock, condition, wait group).
+func c15Blocked() (inside map[string]string, allParked bool, sample string) {
+	buf := make([]byte, 8<<20)
+	buf = buf[:runtime.Stack(buf, true)]
+	inside = map[string]string{}
+	allParked = true
+	for _, g := range strings.Split(string(buf), "\n\n") {
+		if !strings.Contains(g, "github.com/zitadel/saml/pkg/") {
+			continue
+		}
+		m := reGoroutine.FindStringSubmatch(g)
+		if m == nil {
+			continue
+		}
+		inside[m[1]] = m[2]
+		switch m[2] {
+		case "chan send", "chan receive", "select", "select (no cases)", "semacquire", "sync.Mutex.Lock", "sync.RWMutex.Lock", "sync.RWMutex.RLock", "sync.Cond.Wait", "sync.WaitGroup.Wait", "chan send (nil chan)", "chan receive (nil chan)":
+			if sample == "" {
+				var frames []string
+				for _, line := range strings.Split(g, "\n") {
+					if strings.HasPrefix(line, "github.com/zitadel/saml/") {
+						frames = append(frames, strings.TrimPrefix(line[:strings.LastIndex(line, "(")], "github.com/zitadel/saml/pkg/"))
+					}
+					if len(frames) == 3 {
+						break
+					}
+				}
+				sample = m[2] + " in " + strings.Join(frames, " < ")
+			}
+		default:
+			allParked = false
+		}
+	}
+	return
+}
+
+// c15Await waits for the clients. No request normally takes longer than a few milliseconds; when not a single request of
+// any client has been answered for 12 s, the goroutines are inspected: if all that are inside zitadel/saml are parked on
+// a channel or lock, and are the same ones in the same state 3 s later, nothing in the process can ever release them -
+// the requests are blocked for good, which is a violation (the provider no longer serves). Anything else that is slow is
+// a harness matter (exit 2).
+func c15Await(wg *sync.WaitGroup, cc *c15Collect, what string) *ev.Violation {
+	done := make(chan struct{})
+	go func() { wg.Wait(); close(done) }()
+	last, lastChange := atomic.LoadInt64(&cc.finished), time.Now()
+	begin := time.Now()
+	for {
+		select {
+		case <-done:
+			return nil
+		case <-time.After(500 * time.Millisecond):
+		}
+		if n := atomic.LoadInt64(&cc.finished); n != last {
+			last, lastChange = n, time.Now()
+		}
+		if time.Since(lastChange) > 12*time.Second {
+			g1, parked1, sample := c15Blocked()
+			time.Sleep(3 * time.Second)
+			g2, parked2, _ := c15Blocked()
+			same := len(g1) == len(g2) && len(g1) > 0
+			for id, st := range g1 {
+				if g2[id] != st {
+					same = false
+				}
+			}
+			if parked1 && parked2 && same && atomic.LoadInt64(&cc.finished) == last {
+				return ev.V("C15/requests-blocked-forever", "%s: %d requests are inside the provider and none has been answered for 15 s; every one of them is parked (%s) and nothing is running that could release them", what, len(g1), sample)
+			}
+			if time.Since(lastChange) > 100*time.Second {
+				fmt.Printf("HARNESS-FAILURE property=C15 %s made no progress for 100s and the goroutines are not all parked (inconclusive)\n", what)
+				os.Exit(2)
+			}
+		}
+		if time.Since(begin) > 300*time.Second {
+			fmt.Printf("HARNESS-FAILURE property=C15 %s did not finish within 300s (inconclusive)\n", what)
+			os.Exit(2)
+		}
+	}
+}
+
 func c15Run(c C15Case) ([]*ev.Violation, *c15Collect) {
-	spec := c15Spec(c.N)
+	spec := c15Spec(c.N + c.StormN)
+	for j := 0; j < c.StormN; j++ {
+		i := c.N + j
+		tk := c15Tok(i)
+		acsE := spec.SPs[i].ACS[j%2] // POST and Redirect delivery alternate
+		spec.Requests = append(spec.Requests, world.RequestSpec{ID: "storm-" + tk, AppID: spec.SPs[i].AppID, RelayState: "rs-" + tk, ACS: acsE.Location, Binding: acsE.Binding,
+			AuthRequestID: "_stormreq" + tk, UserID: spec.Users[i].UserID, Done: true})
+	}
 	w := mustBuild(spec)
 	cc := &c15Collect{ids: map[string]string{}, byOp: map[string]int{}}
 	old := runtime.GOMAXPROCS(c.Procs)
 	defer runtime.GOMAXPROCS(old)
+	if c.StormN > 0 {
+		var faults []world.Fault
+		for _, f := range c.StormFaults {
+			f.Occurrence = 0
+			faults = append(faults, f)
+		}
+		w.Store.SetFaults(faults)
+		var swg sync.WaitGroup
+		for j := 0; j < c.StormN; j++ {
+			swg.Add(1)
+			go func(i int) {
+				defer swg.Done()
+				c15Storm(w, spec, i, cc)
+			}(c.N + j)
+		}
+		if v := c15Await(&swg, cc, "storm"); v != nil {
+			return []*ev.Violation{v}, cc
+		}
+		w.Store.SetFaults(nil)
+	}
 	var wg sync.WaitGroup
 	start := make(chan struct{})
 	for i := 0; i < c.N; i++ {
@@ -282,16 +451,17 @@ func c15Run(c C15Case) ([]*ev.Violation, *c15Collect) {
 		}(i)
 	}
 	close(start)
-	done := make(chan struct{})
-	go func() { wg.Wait(); close(done) }()
-	select {
-	case <-done:
-	case <-time.After(120 * time.Second):
-		fmt.Println("HARNESS-FAILURE property=C15 plan did not finish within 120s (inconclusive)")
-		os.Exit(2)
+	what := "plan"
+	if c.StormN > 0 {
+		what = fmt.Sprintf("plan after a storm of %d sessions under %v", c.StormN, c.StormFaults)
+	}
+	if v := c15Await(&wg, cc, what); v != nil {
+		cc.add(v)
 	}
 	// IDs recorded by c03Compare's freshness set are process-wide; the local map covers the rest
-	return cc.vs, cc
+	cc.mu.Lock()
+	defer cc.mu.Unlock()
+	return append([]*ev.Violation(nil), cc.vs...), cc
 }
 
 func TestC15(t *testing.T) {
@@ -318,8 +488,12 @@ func TestC15(t *testing.T) {
 		col.Count("requests", cc.requests)
 		col.Count("overlapping-request-starts", int(cc.overlaps))
 		col.Count("ids-collected", len(cc.ids))
-		col.Case(cc.overlaps >= 1, ev.Fingerprint(c.N, c.Procs, shape), []string{fmt.Sprintf("clients/%02d", c.N), fmt.Sprintf("gomaxprocs/%d", c.Procs)}, func() any {
-			return map[string]any{"clients": c.N, "gomaxprocs": c.Procs, "ops_of_client_0": c.Ops[0], "requests": cc.requests, "overlapping_request_starts": cc.overlaps, "ids_collected": len(cc.ids)}
+		stormClass := "storm/none"
+		if c.StormN > 0 {
+			stormClass = fmt.Sprintf("storm/%02d-sessions/%s", c.StormN, c.StormFaults[0])
+		}
+		col.Case(cc.overlaps >= 1, ev.Fingerprint(c.N, c.Procs, shape, c.StormN, c.StormFaults), []string{fmt.Sprintf("clients/%02d", c.N), fmt.Sprintf("gomaxprocs/%d", c.Procs), stormClass}, func() any {
+			return map[string]any{"clients": c.N, "gomaxprocs": c.Procs, "storm_clients": c.StormN, "storm_faults": c.StormFaults, "ops_of_client_0": c.Ops[0], "requests": cc.requests, "overlapping_request_starts": cc.overlaps, "ids_collected": len(cc.ids)}
 		})
 		return vs
 	})
